@@ -59,9 +59,9 @@ def _rand_cmd(rng):
     if r < 0.68: return ["incr", rng.choice(["n", "m"]), rng.choice([1, 1, 2, 3]), rng.choice([0, 0, 0.5, 1.0])]
     if r < 0.72: return ["set_lock", "La", rng.choice(["t1", "t2"]), rng.choice([0.5, 1.0])]
     if r < 0.76: return ["unlock", "La", rng.choice(["t1", "t2"])]
-    if r < 0.79: return ["scan", rng.choice(["*", "a*", "*a", "s*", "b", "*b*"])]
+    if r < 0.79: return ["scan", rng.choice(["*", "a*", "*a", "s*", "b", "*b*"]), rng.choice([100, 1, 2, 3])]
     if r < 0.82: return ["delete_match", rng.choice(["a*", "*b", "n", "s*", "*"])]
-    if r < 0.85: return ["get_match", rng.choice(["*", "a*", "*b"])]
+    if r < 0.85: return ["get_match", rng.choice(["*", "a*", "*b", "n*", "m"]), rng.choice([100, 1, 2, 3])]
     if r < 0.89: return ["set_add", rng.choice(["sa", "sb"]), rng.sample(["x", "y", "z", "xa"], rng.randint(1, 3)), rng.choice([None, None, 0.5, 1.0])]
     if r < 0.91: return ["set_remove", rng.choice(["sa", "sb"]), rng.sample(["x", "y", "z"], rng.randint(1, 2))]
     if r < 0.93: return ["set_pop", rng.choice(["sa", "sb"]), rng.choice([1, 2, 100])]
@@ -92,6 +92,9 @@ def gen_cases(rng, tier):
     for d in DECORATORS:
         for down_from in (0, 1, 2):
             cases.append({"kind": "decor", "decorator": d, "down_from": down_from, "calls": 4})
+    for shape in ("match_last_page", "match_first_page", "match_spread", "none"):
+        for op in ("scan", "get_match", "delete_match"):
+            cases.append({"kind": "bulk", "shape": shape, "op": op})
     if tier == "thorough":
         for _ in range(150):            # short histories: the server goes down at EVERY position (and stays down / comes back after two commands)
             base = _rand_case(rng, 8)
@@ -162,9 +165,9 @@ def _run_history(case):
                 elif op == "set_lock": r = ["bool", bool(await be.set_lock(c[1], c[2], c[3]))]
                 elif op == "unlock":
                     v = await be.unlock(c[1], c[2]); r = ["none"] if v is None else ["int", int(v)]
-                elif op == "scan": r = ["keys", sorted([k async for k in be.scan(c[1])])]
+                elif op == "scan": r = ["keys", sorted([k async for k in be.scan(c[1], batch_size=c[2] if len(c) > 2 else 100)])]
                 elif op == "delete_match": r = ["unit" if (await be.delete_match(c[1])) is None else "odd"]
-                elif op == "get_match": r = ["pairs", sorted([[k, enc(v)] async for k, v in be.get_match(c[1])], key=lambda kv: kv[0])]
+                elif op == "get_match": r = ["pairs", sorted([[k, enc(v)] async for k, v in be.get_match(c[1], batch_size=c[2] if len(c) > 2 else 100)], key=lambda kv: kv[0])]
                 elif op == "set_add":
                     v = await be.set_add(c[1], *c[2], expire=c[3]); r = ["none"] if v is None else ["int", int(v)]
                 elif op == "set_remove":
@@ -262,8 +265,42 @@ def _run_decor(case):
     return vclock.run(go)
 
 
+def _run_bulk(case):
+    """more keys than one SCAN page (count=100) holds: paging of scan / get_match / delete_match"""
+    async def go():
+        from redis.server import reset_servers, server_for
+        reset_servers()
+        from cashews.backends.redis import Redis
+        be = Redis("redis://c19b", suppress=True)
+        await be.init()
+        srv = server_for("redis://c19b")
+        shape = case["shape"]
+        filler = [f"f{i:03d}" for i in range(230)]
+        hits = {"match_last_page": ["z1", "z2"], "match_first_page": ["a1", "a2"], "match_spread": ["a1", "f1x", "z9"], "none": []}[shape]
+        for k in filler + hits:
+            await be.set(k, "v-" + k)
+        pat = {"match_last_page": "z*", "match_first_page": "a*", "match_spread": "*1*", "none": "q*"}[shape]
+        expect = sorted(k for k in filler + hits if _glob(pat, k))
+        if case["op"] == "scan": got = sorted([k async for k in be.scan(pat)])
+        elif case["op"] == "get_match":
+            got = sorted([k async for k, v in be.get_match(pat) if v == "v-" + k])
+        else:
+            await be.delete_match(pat)
+            left = sorted(k for k in srv.data)
+            got, expect = left, sorted(k for k in filler + hits if k not in expect)
+        await be.close()
+        return {"pairs": [[got, expect]], "raised": None}
+    return vclock.run(go)
+
+
+def _glob(pat, k):
+    import fnmatch
+    return fnmatch.fnmatchcase(k, pat)
+
+
 def run_impl(case):
-    return _run_history(case) if case["kind"] == "history" else _run_decor(case)
+    if case["kind"] == "history": return _run_history(case)
+    return _run_decor(case) if case["kind"] == "decor" else _run_bulk(case)
 
 
 def _cmd(c):
@@ -327,7 +364,7 @@ def _entry(e):
 
 
 def to_coq(case, obs):
-    if case["kind"] == "decor":
+    if case["kind"] in ("decor", "bulk"):
         pairs = [(C("VStr", S(repr(a))), C("VStr", S(repr(b)))) for a, b in obs["pairs"]]
         return C("CDecor", pairs, obs["raised"] is not None)
     h = [((Z(t), bool(down)), _cmd(c)) for (adv, down, c), t in zip(case["hist"], obs["times"])]
@@ -335,7 +372,7 @@ def to_coq(case, obs):
 
 
 def nontrivial(case, obs):
-    if case["kind"] == "decor":
+    if case["kind"] in ("decor", "bulk"):
         return True
     down = any(d for _, d, _ in case["hist"])
     lapse = False
@@ -348,6 +385,8 @@ def nontrivial(case, obs):
 
 
 def classify(case, obs):
+    if case["kind"] == "bulk":
+        return {"bulk_paging_runs": 1, "bulk_" + case["op"]: 1}
     if case["kind"] == "decor":
         return {"decorator_runs": 1, "decor_" + case["decorator"]: 1, "decorated_calls": len(obs["pairs"]), "decorated_raised": int(obs["raised"] is not None)}
     d = {"histories": 1, "commands": len(case["hist"]), "suppress_on": int(case["sup"]), "commands_while_down": sum(1 for _, dn, _ in case["hist"] if dn)}
@@ -358,6 +397,8 @@ def classify(case, obs):
 
 
 def shrink(case):
+    if case["kind"] == "bulk":
+        return
     if case["kind"] != "history":
         if case["calls"] > 1:
             c = dict(case); c["calls"] = case["calls"] - 1; yield c
